@@ -62,7 +62,7 @@ package sugardb
 //@   modifies server.store[*], server.keysWithExpiry.keys[*], server.lfuCache.cache[*], server.lruCache.cache[*]
 
 //@ type SugarDB
-//@   invariant maps: this.store != nil && this.keysWithExpiry.keys != nil && this.lfuCache.cache != nil && this.lruCache.cache != nil
+//@   invariant maps: this.store != nil && this.keysWithExpiry.keys != nil && this.lfuCache.cache != nil && this.lruCache.cache != nil && this.clock != nil
 //@   invariant locks: this.storeLock != nil && this.lfuCache.mutex != nil && this.lruCache.mutex != nil && this.lfuCache.mutex != this.lruCache.mutex && this.connInfo.mut != nil && this.storeLock != this.lfuCache.mutex && this.storeLock != this.lruCache.mutex && this.connInfo.mut != this.storeLock && this.connInfo.mut != this.lfuCache.mutex && this.connInfo.mut != this.lruCache.mutex
 //@   invariant dbs: forall d int :: dbwf(this, d)
 //@   invariant present: forall d int :: has(this.store, d) ==> this.store[d] != nil
